@@ -36,6 +36,8 @@ pub struct PeerView {
     pub goaway_seen: bool,
     pub sent_goaway: bool,
     pub seen_out: usize,
+    /// endpoint's SETTINGS_MAX_CONCURRENT_STREAMS as last seen (None = unlimited)
+    pub ep_max_streams: Option<u64>,
     /// control profile: ops to execute back to back before anything else is drawn
     pub queue: std::collections::VecDeque<Value>,
     /// control profile: last-stream ids of the GOAWAY frames the peer has sent
@@ -61,10 +63,12 @@ pub struct Profile {
     pub queue: bool,
     /// large bodies ending the stream, tiny write budgets, frequent SETTINGS window changes while writes are blocked
     pub backpressure: bool,
+    /// the scripted peer never violates the protocol (no content-length, strictly within windows and limits)
+    pub legal_peer: bool,
 }
 
 pub fn profile(name: &str) -> Profile {
-    let base = Profile { name: "mixed", w_conn_poll: 30, w_peer: 30, w_app: 40, w_io: 3, w_chaos: 0, w_end: 1, max_data: 3000, tiny_windows: false, small_limits: false, recv_heavy: false, control: false, queue: false, backpressure: false };
+    let base = Profile { name: "mixed", w_conn_poll: 30, w_peer: 30, w_app: 40, w_io: 3, w_chaos: 0, w_end: 1, max_data: 3000, tiny_windows: false, small_limits: false, recv_heavy: false, control: false, queue: false, backpressure: false, legal_peer: false };
     match name {
         "flow" => Profile { name: "flow", tiny_windows: true, max_data: 400, w_io: 6, ..base },
         "limits" => Profile { name: "limits", small_limits: true, max_data: 200, ..base },
@@ -72,6 +76,7 @@ pub fn profile(name: &str) -> Profile {
         "chaos" => Profile { name: "chaos", w_chaos: 12, ..base },
         "reset" => Profile { name: "reset", max_data: 500, ..base },
         "shutdown" => Profile { name: "shutdown", w_end: 6, ..base },
+        "legal" => Profile { name: "legal", legal_peer: true, w_end: 0, ..base },
         "bp" => Profile { name: "bp", backpressure: true, max_data: 3000, w_io: 14, w_peer: 32, w_app: 36, w_conn_poll: 30, ..base },
         "queue" => Profile { name: "queue", small_limits: true, queue: true, max_data: 100, w_app: 55, w_peer: 25, w_conn_poll: 20, w_io: 2, ..base },
         "control" => Profile { name: "control", w_end: 2, w_io: 5, control: true, ..base },
@@ -116,10 +121,10 @@ pub fn gen_config(rng: &mut Rng, client: bool, p: &Profile) -> Config {
     if rng.chance(1, 3) {
         c.reset_stream_duration_ms = Some(*rng.pick(&[0u64, 1, 1000]));
     }
-    if rng.chance(1, 5) {
+    if !p.legal_peer && rng.chance(1, 5) {
         c.max_pending_accept_reset_streams = Some(*rng.pick(&[0usize, 1, 3]));
     }
-    if rng.chance(1, 5) {
+    if !p.legal_peer && rng.chance(1, 5) {
         c.max_local_error_reset_streams = Some(*rng.pick(&[Some(0usize), Some(1), Some(3), None]));
     }
     if rng.chance(1, 4) {
@@ -153,6 +158,7 @@ impl PeerView {
             goaway_seen: false,
             sent_goaway: false,
             seen_out: 0,
+            ep_max_streams: cfg.max_concurrent_streams.map(|v| v as u64),
             queue: std::collections::VecDeque::new(),
             goaway_lasts: vec![],
         }
@@ -182,6 +188,9 @@ impl PeerView {
                                 }
                                 if id == 5 {
                                     self.ep_max_frame = v as usize;
+                                }
+                                if id == 3 {
+                                    self.ep_max_streams = Some(v as u64);
                                 }
                             }
                         }
@@ -293,10 +302,14 @@ pub fn gen_peer(rng: &mut Rng, d: &Driver, pv: &mut PeerView, p: &Profile) -> Op
         0..=17 => {
             // open a new stream (server role) / push (client role, rarely)
             if !client {
+                if p.legal_peer {
+                    let open = pv.streams.iter().filter(|s| s.initiated_by_peer && !s.reset && (s.peer_open || s.ep_open)).count() as u64;
+                    if let Some(m) = pv.ep_max_streams { if open >= m { return None; } }
+                }
                 let sid = pv.next_peer_sid;
                 pv.next_peer_sid += 2;
                 let eos = rng.chance(1, 3);
-                let cl = if !eos && rng.chance(1, 4) { Some(rng.range(0, 600)) } else { None };
+                let cl = if !p.legal_peer && !eos && rng.chance(1, 4) { Some(rng.range(0, 600)) } else { None };
                 let block = req_block(rng, cl);
                 let split = if rng.chance(1, 6) { rng.range(5, 40) as usize } else { 0 };
                 pv.streams.push(PStream { sid, peer_open: !eos, ep_open: true, reset: false, peer_head_sent: true, window: pv.ep_init_window, sent_off: 0, initiated_by_peer: true });
@@ -358,7 +371,7 @@ pub fn gen_peer(rng: &mut Rng, d: &Driver, pv: &mut PeerView, p: &Profile) -> Op
             let padcost = pad.map(|p| p as u64 + 1).unwrap_or(0);
             let mut len = rng.range(0, p.max_data.min(pv.ep_max_frame as u64 - 300));
             if len + padcost > room {
-                if room <= padcost { if rng.chance(3, 4) { return None; } len = 0; } else { len = room - padcost; }
+                if room <= padcost { if p.legal_peer || rng.chance(3, 4) { return None; } len = 0; } else { len = room - padcost; }
             }
             if rng.chance(1, 8) { len = len.min(5); }
             let eos = rng.chance(1, 5);
